@@ -6,6 +6,7 @@ mod gap;
 mod fringe;
 mod models;
 mod parallel;
+mod sched;
 
 fn main() {
     let args: Vec<String> = std::env::args().collect();
@@ -19,6 +20,7 @@ fn main() {
         "nodup_fringe" => fringe::replay(&rest, true),
         "simple_fringe" => fringe::replay(&rest, false),
         "par_abort_bounds" => parallel::replay_abort_bounds(&rest),
+        "par_abort_inflight" => sched::replay_abort_inflight(&rest),
         "par_with_nb_threads" => parallel::replay_with_nb_threads(&rest),
         other => { eprintln!("unknown case {other}"); std::process::exit(2) }
     };
